@@ -696,7 +696,7 @@ func (o *operation) reportError(err error) {
 
 	rw, ok := o.writer.(*responseWriter)
 	if ok {
-		rw.reportError(err)
+		rw.reportReadError(err)
 		return
 	}
 	// No responseWriter created yet, so we duplicate some of its behavior to write an error.
@@ -722,7 +722,7 @@ func (o *operation) readRequestMessage(rw *responseWriter, reader io.Reader, msg
 		msgLen, compressed, err = o.processRequestEnvelope(envBuf)
 		if err != nil {
 			if rw != nil {
-				rw.reportError(err)
+				rw.reportReadError(err)
 			}
 			return err
 		}
@@ -734,7 +734,7 @@ func (o *operation) readRequestMessage(rw *responseWriter, reader io.Reader, msg
 		limit, grow, makeError, limitErr := o.determineReadLimit()
 		if limitErr != nil {
 			if rw != nil {
-				rw.reportError(limitErr)
+				rw.reportReadError(limitErr)
 			}
 			return limitErr
 		}
@@ -897,7 +897,7 @@ func (r *envelopingReader) prepareNext() error {
 			length := r.rw.op.contentLen
 			if length > limit {
 				err := bufferLimitError(limit)
-				r.rw.reportError(err)
+				r.rw.reportReadError(err)
 				return err
 			}
 			r.current = &hardLimitReader{r: r.r, rw: r.rw, limit: r.rw.op.contentLen, makeError: contentLengthError}
@@ -925,7 +925,7 @@ func (r *envelopingReader) prepareNext() error {
 		env, err = r.rw.op.clientEnveloper.decodeEnvelope(envBytes)
 		if err != nil {
 			err = malformedRequestError(err)
-			r.rw.reportError(err)
+			r.rw.reportReadError(err)
 			return err
 		}
 		r.current = &exactLengthReader{r: r.r, remaining: int64(env.length)}
@@ -1009,7 +1009,7 @@ func (r *transformingReader) Read(data []byte) (n int, err error) {
 		}
 		if err := r.prepareMessage(); err != nil {
 			r.err = err
-			r.rw.reportError(err)
+			r.rw.reportReadError(err)
 			return 0, err
 		}
 	}
@@ -1055,6 +1055,10 @@ func (r *transformingReader) prepareMessage() error {
 // When the headers are written, the actual transformation that is
 // needed is determined and a writer decorator created.
 type responseWriter struct {
+	// mu serializes the handler's use of the writer with errors reported by
+	// the request readers, which a full-duplex handler (one goroutine reading
+	// the request, another writing the response) triggers concurrently.
+	mu       sync.Mutex
 	op       *operation
 	delegate http.ResponseWriter
 	flusher  http.Flusher
@@ -1092,8 +1096,10 @@ func (w *responseWriter) Header() http.Header {
 }
 
 func (w *responseWriter) Write(data []byte) (n int, err error) {
+	w.mu.Lock()
+	defer w.mu.Unlock()
 	if !w.headersWritten {
-		w.WriteHeader(http.StatusOK)
+		w.writeHeader(http.StatusOK)
 	}
 	if w.err != nil {
 		return 0, w.err
@@ -1102,6 +1108,12 @@ func (w *responseWriter) Write(data []byte) (n int, err error) {
 }
 
 func (w *responseWriter) WriteHeader(statusCode int) {
+	w.mu.Lock()
+	defer w.mu.Unlock()
+	w.writeHeader(statusCode)
+}
+
+func (w *responseWriter) writeHeader(statusCode int) {
 	if w.headersWritten {
 		return
 	}
@@ -1249,6 +1261,14 @@ func (w *responseWriter) flushMessage() {
 	w.flusher.Flush()
 }
 
+// reportReadError is reportError for callers that are not already inside a
+// call of the handler to this writer: the request readers and the operation.
+func (w *responseWriter) reportReadError(err error) {
+	w.mu.Lock()
+	defer w.mu.Unlock()
+	w.reportError(err)
+}
+
 func (w *responseWriter) reportError(err error) {
 	var end responseEnd
 	if errors.As(err, &end.err) {
@@ -1323,9 +1343,11 @@ func (w *responseWriter) flushHeaders() {
 }
 
 func (w *responseWriter) close() {
+	w.mu.Lock()
+	defer w.mu.Unlock()
 	if !w.headersWritten {
 		// treat as empty successful response
-		w.WriteHeader(http.StatusOK)
+		w.writeHeader(http.StatusOK)
 	}
 	if w.w != nil {
 		_, _ = w.w.Write(nil) // trigger any final writes
@@ -1907,7 +1929,7 @@ func (h *hardLimitReader) Read(data []byte) (n int, err error) {
 	if h.read > h.limit && (err == nil || errors.Is(err, io.EOF)) {
 		err := h.error()
 		if h.rw != nil {
-			h.rw.reportError(err)
+			h.rw.reportReadError(err)
 		}
 		return n, err
 	}
